@@ -513,6 +513,19 @@ def _emitted_keys(ctx, f):
                     n.func.value, ast.Name) and n.func.value.id in ret and \
                 n.args and isinstance(n.args[0], ast.Name):
             elem.add(n.args[0].id)
+        elif isinstance(n, ast.Call) and isinstance(
+                n.func, ast.Attribute) and n.func.attr == 'append' and \
+                isinstance(n.func.value, ast.Name) and \
+                n.func.value.id in ret and n.args:
+            # the element built in place
+            a0 = n.args[0]
+            if isinstance(a0, ast.Dict):
+                for k in a0.keys:
+                    if isinstance(k, ast.Constant):
+                        out.append((k.value, None, n))
+            elif isinstance(a0, ast.Call) and src(a0.func) == 'dict':
+                for k in a0.keywords:
+                    out.append((k.arg, None, n))
     for n in own_nodes(f.node):
         if isinstance(n, ast.Assign) and isinstance(n.value, ast.Call) and \
                 src(n.value.func) == 'dict' and len(n.targets) == 1 and \
